@@ -281,18 +281,20 @@ def run_analysis(name, m, a, rng_seed):
     if name == "slim_optimize":
         return rnd(m.slim_optimize())
     if name == "flux_variability_analysis":
-        rl = [rids[i % len(rids)] for i in a["pick"]] if a.get("subset") else None
+        rl = sorted({rids[i % len(rids)] for i in a["pick"]}) if a.get("subset") else None
         return fr(flux_variability_analysis(m, reaction_list=rl, loopless=a.get("loopless", False), fraction_of_optimum=a.get("fraction", 1.0),
                                             pfba_factor=a.get("pfba_factor"), processes=P))
     if name == "find_blocked_reactions":
         return sorted(find_blocked_reactions(m, open_exchanges=a.get("open", False), processes=P))
-    if name == "find_essential_genes":
-        return sorted(g.id for g in find_essential_genes(m, processes=P))
-    if name == "find_essential_reactions":
-        return sorted(r.id for r in find_essential_reactions(m, processes=P))
+    if name in ("find_essential_genes", "find_essential_reactions"):
+        res = sorted(x.id for x in (find_essential_genes if name == "find_essential_genes" else find_essential_reactions)(m, processes=P))
+        v = m.slim_optimize()
+        # with an optimum of (numerically) zero the default threshold is zero too and membership is decided by rounding noise: not a uniquely
+        # defined set; the call still counts for the state comparison
+        return res if v == v and abs(v) > 1e-6 else None
     if name == "pfba":
         s = pfba(m, fraction_of_optimum=a.get("fraction", 1.0), objective=({m.reactions.get_by_id(rids[0]): 1} if a.get("objective") else None))
-        return [s.status, rnd(s.objective_value)]
+        return [s.status, rnd(s.objective_value) if s.status == "optimal" else None]
     if name in ("moma", "room"):
         ref = None
         if a.get("reference"):
@@ -301,13 +303,13 @@ def run_analysis(name, m, a, rng_seed):
                 ref = None          # a reference that is no flux distribution is not an input the analysis is defined for
         f = moma if name == "moma" else room
         s = f(m, solution=ref, linear=a.get("linear", True))
-        return [s.status, rnd(s.objective_value) if name == "moma" and a.get("linear", True) else None]
+        return [s.status, rnd(s.objective_value) if name == "moma" and a.get("linear", True) and s.status == "optimal" else None]
     if name == "geometric_fba":
         s = geometric_fba(m, max_tries=a.get("max_tries", 20), processes=1)
         return [s.status]
     if name == "loopless_solution":
         s = loopless_solution(m)
-        return [s.status, rnd(s.objective_value)]
+        return [s.status, rnd(s.objective_value) if s.status == "optimal" else None]     # a value next to a non-optimal status means nothing
     if name in ("single_gene_deletion", "single_reaction_deletion", "double_gene_deletion", "double_reaction_deletion"):
         f = {"single_gene_deletion": single_gene_deletion, "single_reaction_deletion": single_reaction_deletion,
              "double_gene_deletion": double_gene_deletion, "double_reaction_deletion": double_reaction_deletion}[name]
@@ -315,7 +317,9 @@ def run_analysis(name, m, a, rng_seed):
         method = a.get("method", "fba")
         out = {}
         for _, row in df.iterrows():
-            out[",".join(sorted(row["ids"]))] = [row["status"], rnd(float(row["growth"])) if method == "fba" else None]     # growth at a MOMA / ROOM optimum is not unique
+            # growth at a MOMA / ROOM optimum is not unique; the status of GLPK's MILP for ROOM can differ between two identical solves at the
+            # edge of feasibility
+            out[",".join(sorted(row["ids"]))] = [row["status"] if "room" not in method else None, rnd(float(row["growth"])) if method == "fba" else None]
         return out
     if name == "production_envelope":
         ex = [r.id for r in m.exchanges] or rids
@@ -433,17 +437,26 @@ def check_case(case):
             elif op == "obj" and len(m.reactions):
                 m.objective = m.reactions[-1]
         results = []
+        undefined = False
         for rep in range(2):
             before = observe(m)
             REC.start(m)
             err = None
             try:
-                res = run_analysis(name, m, args, case["seed"])
+                with warnings.catch_warnings(record=True) as caught:
+                    warnings.simplefilter("always")
+                    res = run_analysis(name, m, args, case["seed"])
             except Exception as e:      # infeasible / unbounded / unsupported arguments: the analysis may fail, the model must not change
                 res, err = None, type(e).__name__
             finally:
                 seen = set(REC.seen)
                 REC.stop()
+            if err in ("OptimizationError", "Infeasible", "Unbounded", "FeasibleButNotOptimal", "UndefinedSolution"):
+                undefined = True        # a solver verdict part-way (e.g. an unbounded range met or not, depending on the vertex of a pre-solve)
+            if any("Solver status is" in str(w.message) for w in caught):
+                undefined = True        # a sub-problem had no optimum and the analysis went on with whatever the solver held: no defined quantity
+            if name == "flux_variability_analysis" and args.get("loopless"):
+                undefined = True        # loopless FVA depends on the solver's state (known findings of C05 / C14): not compared here
             after = observe(m)
             if after != before:
                 fails.append(f"{name}({args}) {'raised ' + err if err else 'returned'} and left the model changed: {c12.first_diff(before, after)}")
@@ -455,6 +468,13 @@ def check_case(case):
             if extra and static_kinds:
                 broken.append(f"{name}: writes {sorted(extra)} were observed at run time but are not in the generated summary {sorted(static_kinds)}")
             results.append((err, res))
+        if undefined:
+            results = results[:1]
+        if len(results) == 2 and results[0] != results[1] and name not in ("optimize", "slim_optimize"):
+            # values reported for a model that has no steady state within its bounds are whatever the solver last held: not defined quantities
+            m.slim_optimize()
+            if m.solver.status != "optimal":
+                results = results[:1]
         if len(results) == 2 and results[0] != results[1]:
             fails.append(f"{name}({args}): two calls on the same model gave different results: {json.dumps(results[0], default=str)[:200]} vs "
                          f"{json.dumps(results[1], default=str)[:200]}")
